@@ -122,23 +122,23 @@ type genOpts struct {
 }
 
 type gen struct {
-	t       *rapid.T
-	o       genOpts
-	p       *Program
-	cur     *tmpl
-	scope   []variable
-	nextID  int
-	nextVar int
-	pending []*Site
-	frames  int
-	inFor   int
-	inFn    int
-	late    bool
-	cfNames []string // contentFor names defined so far (visible in cur template)
-	pdepth  int      // partial nesting depth
-	nest    int      // > 0 inside any block body or partial
-	siteLog []*Site  // every site created, in order
-	elseIf  bool
+	t         *rapid.T
+	o         genOpts
+	p         *Program
+	cur       *tmpl
+	scope     []variable
+	nextID    int
+	nextVar   int
+	pending   []*Site
+	frames    int
+	inFor     int
+	inFn      int
+	late      bool
+	cfDefined map[string]bool // contentFor names this program has defined anywhere so far
+	pdepth    int             // partial nesting depth
+	nest      int             // > 0 inside any block body or partial
+	siteLog   []*Site         // every site created, in order
+	elseIf    bool
 }
 
 func (g *gen) feat(name string) { g.p.Features[name]++ }
@@ -202,6 +202,8 @@ func (g *gen) funcs(ret kind) []variable {
 
 // ---------------------------------------------------------------- expressions
 
+var cfPool = []string{"cA", "cB", "cC", "cD"}
+
 var strLits = []string{`"a"`, `"b<c"`, `"x&y"`, `"hello world"`, `""`, `"q'r"`, "`back tick`", `"ünï"`, `"1"`}
 
 // maybeProbe wraps e in a probe of the wanted kind with probability probePct.
@@ -217,6 +219,10 @@ func (g *gen) maybeProbe(e string, k kind, class string, force bool) string {
 		s := g.newSite(pkMethod, class, k)
 		g.feat("probe_method")
 		return fmt.Sprintf("obj.PM(%d, %s)", s.ID, e)
+	case 2:
+		s := g.newSite(pkMethod, class, k)
+		g.feat("probe_method_value_receiver")
+		return fmt.Sprintf("vobj.PV(%d, %s)", s.ID, e)
 	default:
 		s := g.newSite(pkValue, class, k)
 		g.feat("probe_value")
@@ -357,7 +363,7 @@ func (g *gen) rawExpr(k kind, depth int, class string) string {
 				return strLits[g.intn("slit", 0, len(strLits)-1)]
 			}
 		}
-		switch g.intn("strform", 0, 8) {
+		switch g.intn("strform", 0, 9) {
 		case 0, 1:
 			g.feat("infix_concat")
 			return g.operand(kStr, depth-1, "infix-left:+") + " + " + g.operand(kAny, depth-1, "infix-right:+")
@@ -396,9 +402,17 @@ func (g *gen) rawExpr(k kind, depth int, class string) string {
 				id = s.ID
 			}
 			return fmt.Sprintf("pr(%d, %s)", id, g.expr(kStr, depth-1, "go-helper-arg"))
-		default:
+		case 8:
 			g.feat("chained_call")
 			return "(obj.Self().Name)"
+		default:
+			// a helper that renders, through HelperContext.Render, a template string containing a probe
+			s := g.newSiteIf(pkValue, "help-render", kInt)
+			if s == nil {
+				return "(obj.Self().Name)"
+			}
+			g.feat("helper_render_inner_probe")
+			return fmt.Sprintf("pr2(%d)", s.ID)
 		}
 	case kBool:
 		if leaf {
@@ -627,7 +641,13 @@ func (g *gen) piece(depth int) {
 	case 5:
 		g.feat("builtin_misc")
 		g.frames = 0
-		switch g.intn("misc", 0, 3) {
+		switch g.intn("misc", 0, 6) {
+		case 4:
+			g.tag("<%=", "tm", "%>")
+		case 5:
+			g.tag("<%=", "stg", "%>")
+		case 6:
+			g.tag("<%=", "htm", "%>")
 		case 0:
 			g.tag("<%=", "raw("+g.expr(kStr, 1, "go-helper-arg")+")", "%>")
 		case 1:
@@ -1006,7 +1026,8 @@ func (g *gen) contentPiece(depth int) {
 	switch g.intn("content", 0, 3) {
 	case 0, 1:
 		g.feat("content_for")
-		name := g.fresh("c")
+		name := cfPool[g.intn("cfname", 0, len(cfPool)-1)]
+		g.cfDefined[name] = true
 		g.tag("<%", `contentFor("`+name+`") {`, "%>")
 		g.nl()
 		sc := g.pushScope()
@@ -1041,7 +1062,16 @@ func (g *gen) contentPiece(depth int) {
 	default:
 		g.feat("content_of_default")
 		g.frames = 0
-		g.tag("<%=", `contentOf("nosuch") {`, "%>")
+		// a name nothing in THIS program has defined (sibling programs may have:
+		// a block registered anywhere but the execution's own context would leak in)
+		undef := "nosuch"
+		for _, n := range cfPool {
+			if !g.cfDefined[n] && g.pct("cfundef", 60) {
+				undef = n
+				break
+			}
+		}
+		g.tag("<%=", `contentOf("`+undef+`") {`, "%>")
 		g.nl()
 		sc := g.pushScope()
 		g.pieces(depth-1, 2)
@@ -1249,7 +1279,7 @@ func genProgram(t *rapid.T, o genOpts) *Program {
 		o.probePct = 30
 	}
 	p := &Program{Partials: map[string]string{}, Sites: map[int]*Site{}, FeederSites: map[string]*Site{}, Features: map[string]int{}}
-	g := &gen{t: t, o: o, p: p, cur: &tmpl{name: "", line: 1}}
+	g := &gen{t: t, o: o, p: p, cur: &tmpl{name: "", line: 1}, cfDefined: map[string]bool{}}
 	p.JS = g.pct("js", 25)
 	np := g.size("pieces", 1, o.maxPieces)
 	failAt := -1
